@@ -343,17 +343,17 @@ class LObj:
 
 
 def gen_lane_scripts(rng, n):
-    corpus = ["kPKspuR", "mMXZxyR", "vVR", "xyspppuR", "kkPKPKrRxR", "mMZyxR", "ssppuuxR", "xkRPK", "ymMRXZ", "xSpuR", "SupSupxyR"]
+    corpus = ["kPKspuR", "mMXZxyR", "vVR", "xyspppuR", "kkPKPKrRxR", "mMZyxR", "ssppuuxR", "xkRPK", "ymMRXZ", "xSpuR", "SupSupxyR", "xQuR", "QupQuyxR", "kQPuKR"]
     out = list(corpus)
     for _ in range(n):
         s, x, susp, kids, src, act, qi = "", 1, 0, 0, False, False, False
         for _k in range(rng.choice([4, 8, 14])):
-            c = rng.choice("rRsukKpPxymMXZvVS")
+            c = rng.choice("rRsukKpPxymMXZvVSQ")
             if c == "R" and (x <= 1):
                 continue
             if c == "u" and susp == 0 or c == "K" and (kids == 0 or susp > 0) or c == "P" and (kids == 0 or susp > 0):
                 continue
-            if c == "S" and susp > 0:
+            if c in "SQ" and susp > 0:
                 continue
             if c == "m" and (src or qi) or c == "M" and (not src or act) or c in "XZ" and not (src and act):
                 continue
@@ -367,7 +367,7 @@ def gen_lane_scripts(rng, n):
                 continue
             s += c
             x += {"r": 1, "R": -1}.get(c, 0)
-            susp += {"s": 1, "u": -1, "S": 1}.get(c, 0)
+            susp += {"s": 1, "u": -1, "S": 1, "Q": 1}.get(c, 0)
             kids += {"k": 1, "K": -1}.get(c, 0)
             if c == "m":
                 src, act = True, False
@@ -412,6 +412,8 @@ def lane_expect(scripts):
                 kids.pop(); q.kids -= 1
             elif c == "S":
                 items += 1; q.susp += 1
+            elif c == "Q":
+                items += 1; q.susp += 1; pendq += 1
             elif c == "p":
                 if q.susp > 0:
                     pendq += 1
